@@ -348,6 +348,37 @@ def judge_canaries(chk, out):
 
 
 # --------------------------------------------------------------------------------------------
+# algorithm-level conformance: the transcription run by TLC on REAL initial stacks
+# --------------------------------------------------------------------------------------------
+def conformance(chk, pool, limit):
+    """pool: accepted records that carry a real stack picture.  TLC (StartupTrace.tla) runs the transcribed walk
+    on each picture and compares argument list, collected aux values and every var / var_unix answer with what
+    the real code reported.  Divergence = model drift (reported, not a verdict)."""
+    if not pool:
+        chk.extra["model_conformance"] = {"records": 0}
+        chk.extra["model_conformance_ok"] = False
+        return
+    step = max(1, len(pool) // limit)
+    recs = [{x: r[x] for x in ("st", "heap", "args_os", "argc", "look", "aux", "has_aux", "mode", "build")} for r in pool[::step][:limit]]
+    path = os.path.join(chk.work, "stack_trace.ndjson")
+    core.write_ndjson(path, recs)
+    res = core.run_tlc("StartupTrace.tla", "StartupTrace.cfg", workers=4, env={"TRACE": path}, timeout=3000, xmx="6g")
+    core.tlc_must_pass(res, "StartupTrace")
+    chk.add_tlc(res)
+    conf, div = res.printed("CONF"), res.printed("DIV")
+    expect = sum(1 + len(r["look"]) + sum(1 for l in r["look"] if l["var"]["k"] != "skipped") for r in recs)
+    if len(conf) + len(div) != expect:
+        raise core.ToolError("StartupTrace decided %d + %d of %d walks" % (len(conf), len(div), expect))
+    chk.extra["model_conformance"] = {"records": len(recs), "walks": expect, "conform": len(conf), "diverged": len(div),
+                                      "states": res.distinct, "modes": sorted({"%s/%s" % (r["mode"], r["build"]) for r in recs}),
+                                      "first_divergences": [dict(d, mode=recs[d["rec"] - 1]["mode"]) for d in div[:3]]}
+    chk.extra["model_conformance_ok"] = not div
+    if div:
+        core.log("C07: model drift - %d of %d walks of Startup.tla on real stacks differ from what the code reported (not a verdict)" % (
+            len(div), expect))
+
+
+# --------------------------------------------------------------------------------------------
 # describing a rejected run (signature / human text; the verdict is TLC's)
 # --------------------------------------------------------------------------------------------
 def name_of(e):
@@ -576,6 +607,7 @@ def run(tier):
     lookups = 0
     stacks = 0
     canary_recs = []
+    stack_pool = []
     with concurrent.futures.ThreadPoolExecutor(max_workers=4 if quick else 2) as ex:   # <= 8 single-worker judges in flight
         verdicts = dict(zip(sorted(results), ex.map(lambda k: judge(chk, results[k][0], "%s_%s" % k), sorted(results))))
     for (mode, build), (recs, raws) in sorted(results.items()):
@@ -584,6 +616,8 @@ def run(tier):
         chk.evaluations += len(recs)
         chk.traces += len(recs) - len(bad)
         for i, rec in enumerate(recs):
+            if rec["st"] and i not in bad:
+                stack_pool.append(rec)
             lookups += len(rec["look"])
             stacks += 1 if rec["st"] else 0
             names = [name_of(e) for e in rec["kenv"]]
@@ -597,6 +631,7 @@ def run(tier):
             r = recs[len(recs) // 3]
             chk.sample({"mode": mode, "build": build, "argv": [show(a) for a in r["argv"]], "env": [show(e) for e in r["env"]],
                         "look": [[show(l["key"]), fmt_res(l["varu"])] for l in r["look"]], "mono": r["mono"]})
+    conformance(chk, stack_pool, 64 if quick else 400)
     core.log("C07: judged (t=%.0fs)" % (time.time() - chk.t0))
     chk.nontrivial = len(nontrivial)
     chk.exhaustive = not quick
